@@ -7,16 +7,16 @@ A="$1"; K="$2"; SID="$3"; PROP="$4"
 OUT=/verif/seeded/$SID
 mkdir -p "$OUT"
 cp "$A/patch$K.diff" "$OUT/patch.diff"; cp "$A/demo$K.py" "$OUT/demo.py"; cp "$A/notes$K.txt" "$OUT/notes.txt" 2>/dev/null
-W=$(mktemp -d /tmp/cs-XXXXXX)
-/verif/tools/mkworktree.sh "$W" >/dev/null || exit 2
-cd "$W"
+# the agent's own scratch worktree is reused (demos may assert its path); it is clean
+W="$A"
+cd "$W" && git checkout -q -- src || exit 2
 PYTHONPATH=$W/src timeout 600 /venv/bin/python -W ignore "$OUT/demo.py" > "$OUT/demo_clean.log" 2>&1; rc_clean=$?
 git apply --whitespace=nowarn "$OUT/patch.diff"; rc_apply=$?
 PYTHONPATH=$W/src timeout 600 /venv/bin/python -W ignore "$OUT/demo.py" > "$OUT/demo_patched.log" 2>&1; rc_patched=$?
 PYTHONPATH=$W/src /venv/bin/python -m pytest -q -p no:cacheprovider -n 6 --timeout=900 tests > "$OUT/pytest.log" 2>&1
 summary=$(tail -1 "$OUT/pytest.log")
 files=$(git diff --name-only | tr '\n' ' ')
-cd /; git -C /repo worktree remove --force "$W"
+git checkout -q -- src; cd /
 python3 - "$OUT" "$PROP" "$rc_clean" "$rc_apply" "$rc_patched" "$summary" "$files" <<'PY'
 import json,sys,os
 out,prop,rc_clean,rc_apply,rc_patched,summary,files=sys.argv[1:8]
